@@ -49,6 +49,7 @@ ASSUMPTIONS = [
 ]
 
 INF = math.inf
+CERT_LIMIT = 4000      # the counting criterion enumerates all physical environments of all operands
 SEMS = ["real", "log", "vit", "bool"]
 
 # ---------------------------------------------------------------------------- signatures
@@ -430,7 +431,10 @@ def run(tier, seed):
             violations.append(Violation("einsum modified one of its operands", case=case, corr="corr:einsum (operands unchanged)", call="fggs.indices.einsum"))
         cf = checkfn_of(case)
         by.setdefault(cf.kind, (cf, []))[1].append((ci, wire_case(case, res, spy, ptr), res, exc))
-        if case["ops"] and case["variant"] != "vit":
+        nenv = math.prod(max(n, 1) for sp in case["ops"] for _, n in sp["paxes"])
+        if case["ops"] and case["variant"] != "vit" and nenv > CERT_LIMIT:
+            hist.setdefault("certificate_skipped_too_large", {"n": 0})["n"] += 1
+        if case["ops"] and case["variant"] != "vit" and nenv <= CERT_LIMIT:
             ccf = certfn_of(case)
             certs.setdefault(ccf.kind, (ccf, []))[1].append((ci, (wire_case(case, res, spy, ptr)[0], case["inputs"], case["output"], next_uid(case))))
     jobs = []; order = []
